@@ -117,6 +117,7 @@ type c04Hook struct {
 	Bindings  []c04Binding
 	KBindings []c04KBinding
 	V0        bool // v0 configuration (JSON): onStartup + schedule only, main queue, no groups; no combining
+	Extra     string // further top-level sections of a v1 configuration (YAML), e.g. webhook bindings (C07)
 }
 
 func c04QueueName(n int) string {
@@ -197,6 +198,7 @@ func (h c04Hook) script(dir, ns string) string {
 			}
 		}
 	}
+	b.WriteString(h.Extra)
 	b.WriteString("EOF\nexit 0\nfi\n")
 	return b.String() + h.body(dir)
 }
